@@ -248,6 +248,42 @@ fn check_pair(acc: &mut Acc, a: &Integer, b: &Integer, collect: bool) {
             "mul" => quiet(|| a.checked_mul(b).ok()).flatten(),
             _ => quiet(|| a.checked_div(b).ok()).flatten(),
         };
+        // the compound-assignment form of the operator must be the operator
+        let assigned: Option<Integer> = match name {
+            "add" => quiet(|| {
+                let mut t = a;
+                t += b;
+                t
+            }),
+            "sub" => quiet(|| {
+                let mut t = a;
+                t -= b;
+                t
+            }),
+            "mul" => quiet(|| {
+                let mut t = a;
+                t *= b;
+                t
+            }),
+            _ => quiet(|| {
+                let mut t = a;
+                t /= b;
+                t
+            }),
+        };
+        acc.evals += 1;
+        match (&unchecked, &assigned) {
+            (Some(u), Some(t)) => {
+                if X::of(u) != X::of(t) || !(u == t) {
+                    acc.v(format!("C19:{}-assign-disagrees-with-operator", name), format!("{:?} {}= {:?} gives {:?} but the operator gives {:?}", a, name, b, t, u));
+                }
+                check_value(acc, t, &format!("{}_assign", name));
+            }
+            (Some(_), None) | (None, Some(_)) => {
+                acc.v(format!("C19:{}-assign-panics-differently", name), format!("{:?} {} {:?}: operator {:?} assign {:?}", a, name, b, unchecked, assigned));
+            }
+            _ => {}
+        }
         acc.evals += 2;
         let representable = exact.map(|e| e.fits()).unwrap_or(false);
         if !representable {
